@@ -164,6 +164,7 @@ class MarginRule(cssrule.CSSRule):
                               # TODO?
                               # , exception=xml.dom.InvalidModificationErr
                               ),
+                         Sequence(PreDef.S(), minmax=lambda: (0, None)),
                          PreDef.char('OPEN', '{'),
                          Sequence(Choice(PreDef.unknownrule(toStore='@'),
                                          styletokens),
@@ -172,9 +173,11 @@ class MarginRule(cssrule.CSSRule):
                          PreDef.char('CLOSE', '}', stopAndKeep=True)
                          )
         # parse
+        # white space is significant inside values (``calc(1px + 2px)``)
         ok, seq, store, unused = ProdParser().parse(cssText,
                                                     'MarginRule',
-                                                    prods)
+                                                    prods,
+                                                    checkS=True)
 
         if ok:
             # everything that may be rejected first, then set all
